@@ -884,7 +884,9 @@ fn do_command_substitution_for_dollar(sh: &mut Shell, tokens: &mut types::Tokens
                 return;
             }
 
-            let to = format!("${{head}}{}${{tail}}", output_txt);
+            // `$` is special in a replacement template (`$1`, `${name}`):
+            // the output must be inserted literally.
+            let to = format!("${{head}}{}${{tail}}", output_txt.replace("$", "$$"));
             let line_ = line.clone();
             let result = re.replace(&line_, to.as_str());
             line = result.to_string();
